@@ -169,6 +169,8 @@ def hazards(case):
         hz.add("star_import_dropped_on_reapplication_next_to_explicit_from_import")
     if a == "froms_to_imports" and {"import_dotted_as", "rel_from_mod"} <= st_:
         hz.add("froms_to_imports_reapplied_drops_aliased_import_of_same_module")
+    if a == "froms_to_imports" and st_ & {"rel_from_mod", "from_pkg_a"} and st_ & {"long", "import_dotted"} and case["usage"].get("pkg") == "all_only":
+        hz.add("froms_to_imports_reapplied_drops_package_import_named_only_in_all")
     if a == "organize_imports" and case["prefs"]["sort_imports_alphabetically"] and ({"import_lib", "import_lib_as"} <= st_ or {"import_dotted_as", "from_pkg_mod"} <= st_):
         hz.add("organize_imports_sort_unstable_for_same_module")
     return hz
